@@ -499,6 +499,13 @@ static ssize_t out_write(void *c, const char *buf, size_t size)
   uint64_t lines = 0;
   for (size_t i = 0; i < size; i++) { if (buf[i] == '\n') { lines++; } }
   h->stdout_lines += lines;
+  if (W.stdout_ceiling != 0 && h->stdout_lines > W.stdout_ceiling && W.event_ceiling != 0)
+  {
+    // deterministic budget for listings: the controller decides whether it was progress or a loop
+    sim_event(SEAM_STDOUT, size, lines);
+    g_in_callback--;
+    sim_finish(HOW_EVENTS, 0);
+  }
   // content is not part of the event hash (timestamps never reach stdout, but
   // pointer values might in debug paths); length is.
   sim_event(SEAM_STDOUT, size, lines);
@@ -759,6 +766,7 @@ static void child_main(const uint8_t *req, size_t len, int stderr_fd)
   W.chunk_state = rq.u64();
   W.fd_limit = rq.u32();
   W.event_ceiling = rq.u64();
+  W.stdout_ceiling = rq.u64();
   W.cwd = rq.str();
   uint32_t nfiles = rq.u32();
   for (uint32_t i = 0; i < nfiles && !rq.bad; i++)
